@@ -69,10 +69,11 @@ def main():
     chk.cov["evaluations"] = len(events)
     chk.cov["distinct_nontrivial"] = sum(1 for e in events if e["kind"] != "clean")
     chk.cov["run_and_compared_with_clean_scope"] = sum(1 for e in events if e["ran"] and e["kind"] != "clean")
-    chk.cov["rule"] = ("14 programs (fn, a chain of fns whose generated traits are each other's dependency bounds, async fn with bounds, by-value deps, mod, concrete deps, entraited trait Self / async / ref / Borrow, "
-                       "static dependency inversion, dyn dependency inversion by ref (sync, and async with async_trait) and by Borrow) x scope variants {clean, each of 15 names shadowed (Impl, core, entrait, Future, Send, "
-                       "Sync, AsRef, Borrow, Sized, Box, Option, Result, std, a value named like the trait, a value named EntraitT), all shadowed, "
-                       "trait named Send / Sync, #![no_std] library}; invoked by absolute path with no imports; non-trivial = not the clean variant")
+    chk.cov["rule"] = ("17 programs (fn, a chain of fns whose generated traits are each other's dependency bounds, async fn with bounds, by-value deps, mod, concrete deps, entraited trait Self / async / ref / Borrow, "
+                       "entraited trait with a by-value receiver, entraited trait / concrete-dependency fn whose own method is called as_ref, "
+                       "static dependency inversion, dyn dependency inversion by ref (sync, and async with async_trait) and by Borrow) x scope variants {clean, each of 18 names shadowed (Impl, core, entrait, Future, Send, "
+                       "Sync, AsRef, Borrow, Sized, Box, Option, Result, std, a value named like the trait, a value named EntraitT, blanket traits with methods as_ref / borrow / into_inner), all shadowed, "
+                       "trait named Send / Sync, #![no_std] library, #![no_implicit_prelude] module}; invoked by absolute path with no imports; non-trivial = not the clean variant")
     chk.cov["exhaustive"] = True
     vf.report_drift(chk, drift, lambda d: f"prog={ev[d['case']]['prog']} kind={ev[d['case']]['kind']} shadows={ev[d['case']]['shadows']} diag={ev[d['case']]['diag']}")
     chk.cov["samples"] = [{k: e[k] for k in ("prog", "kind", "shadows", "name", "compiled", "result", "avail")} for e in events[::45][:5]]
